@@ -37,9 +37,23 @@ int main()
    std::vector<const ipr::Expr*> values;
    for (int i = 0; i < 64; ++i) values.push_back(lex.make_phantom());
    for (auto p : params) values.push_back(p);          // values 64.. are the parameters themselves (renamings, identity bindings)
+   // values 112..119 are variables: four names, each declared twice (the second is a redeclaration with its own node); they are handed to
+   // subst through their static type impl::Var&, as client code holding declarations does
+   std::vector<impl::Var*> var_of(values.size(), nullptr);
+   for (int round = 0; round < 2; ++round)
+      for (int i = 0; i < 4; ++i) {
+         std::u8string s = u8"g"; s += char8_t('a' + i);
+         auto* v = greg.declare_var(lex.get_identifier(s), lex.int_type());
+         values.push_back(v); var_of.push_back(v);
+      }
+   auto bind1 = [&](impl::General_substitution& g, const ipr::Parameter& p, std::size_t vi) -> impl::General_substitution& {
+      if (vi < var_of.size() and var_of[vi] != nullptr) return g.subst(p, *var_of[vi]);
+      return g.subst(p, *values.at(vi));
+   };
    auto show = [&](const ipr::Expr& e) {
       for (size_t i = 0; i < 64; ++i) if (values[i] == &e) return "v" + std::to_string(i);
       for (size_t i = 0; i < params.size(); ++i) if (static_cast<const ipr::Expr*>(params[i]) == &e) return "p" + std::to_string(i);
+      for (size_t i = 64 + params.size(); i < values.size(); ++i) if (values[i] == &e) return "d" + std::to_string(i - 64 - params.size());
       return std::string("?");
    };
    std::string line;
@@ -56,18 +70,19 @@ int main()
          auto* g = lex.make_general_substitution();
          if (b != "-") {
             // bindings are given the way client code writes them: g.subst(p1, v1).subst(p2, v2)... in chains of up to three calls
-            std::vector<std::pair<const ipr::Parameter*, const ipr::Expr*>> bindings;
+            std::vector<std::pair<const ipr::Parameter*, std::size_t>> bindings;
             std::stringstream bs(b); std::string tok;
             while (std::getline(bs, tok, ',')) {
                auto c = tok.find(':');
-               bindings.push_back({ params.at(std::stoi(tok.substr(0, c))), values.at(std::stoi(tok.substr(c + 1))) });
+               bindings.push_back({ params.at(std::stoi(tok.substr(0, c))), std::size_t(std::stoi(tok.substr(c + 1))) });
+               (void) values.at(bindings.back().second);
             }
             std::size_t i = 0;
             while (i < bindings.size()) {
                std::size_t left = bindings.size() - i;
-               if (left >= 3 and i % 2 == 0) { g->subst(*bindings[i].first, *bindings[i].second).subst(*bindings[i + 1].first, *bindings[i + 1].second).subst(*bindings[i + 2].first, *bindings[i + 2].second); i += 3; }
-               else if (left >= 2) { g->subst(*bindings[i].first, *bindings[i].second).subst(*bindings[i + 1].first, *bindings[i + 1].second); i += 2; }
-               else { g->subst(*bindings[i].first, *bindings[i].second); i += 1; }
+               if (left >= 3 and i % 2 == 0) { bind1(bind1(bind1(*g, *bindings[i].first, bindings[i].second), *bindings[i + 1].first, bindings[i + 1].second), *bindings[i + 2].first, bindings[i + 2].second); i += 3; }
+               else if (left >= 2) { bind1(bind1(*g, *bindings[i].first, bindings[i].second), *bindings[i + 1].first, bindings[i + 1].second); i += 2; }
+               else { bind1(*g, *bindings[i].first, bindings[i].second); i += 1; }
             }
          }
          s = g;
@@ -79,7 +94,7 @@ int main()
             std::stringstream bs(bs_); std::string tok;
             while (std::getline(bs, tok, ',')) {
                auto c = tok.find(':');
-               g.subst(*params.at(std::stoi(tok.substr(0, c))), *values.at(std::stoi(tok.substr(c + 1))));
+               bind1(g, *params.at(std::stoi(tok.substr(0, c))), std::size_t(std::stoi(tok.substr(c + 1))));
             }
          };
          auto* g = lex.make_general_substitution();
